@@ -45,6 +45,7 @@ func runC19d(c c19dCase) (*vh.Violation, vh.Outcome) {
 	if err != nil {
 		return vh.V("harness/cache", "%v", err), out
 	}
+	defer rc.Close() // ristretto keeps goroutines and buffers alive until it is closed
 	d := New(cache.New[bool](store.NewRistretto(rc)), zap.NewNop())
 	type st struct {
 		started, entered, returned bool
